@@ -971,7 +971,8 @@ func (pc *peerConn) overrun(ps *peerStream, op SOp) bool {
 		return false
 	}
 	// the application must be idle: a pending read lets the client raise the window
-	if st := pc.w.rpcs[ps.rpc]; st == nil || st.inCall != "" || st.clientDone {
+	// (and must stay idle until the excess has long been delivered)
+	if st := pc.w.rpcs[ps.rpc]; st == nil || st.inCall != "" || st.clientDone || time.Until(st.idleUntil) < 2*time.Second {
 		merge = -1
 	}
 	if left := pc.cliIWS + ps.sendUpd - ps.sent; left != merge {
